@@ -273,6 +273,21 @@ package sshfx
 // the minimum-length rule of readPacket, and the layout of the fixed-shape packets against the same table as the wire
 // codec (verif_contracts_c06.go in the package root) -- two encoders meeting one layout produce identical bytes.
 
+//@ lemma wireConstants
+//@   property C06
+//@   ensures PacketTypeInit == 1 && PacketTypeVersion == 2 && PacketTypeOpen == 3 && PacketTypeClose == 4 && PacketTypeRead == 5 && PacketTypeWrite == 6 && PacketTypeLStat == 7 && PacketTypeFStat == 8 && PacketTypeSetstat == 9 && PacketTypeFSetstat == 10
+//@   ensures PacketTypeOpenDir == 11 && PacketTypeReadDir == 12 && PacketTypeRemove == 13 && PacketTypeMkdir == 14 && PacketTypeRmdir == 15 && PacketTypeRealPath == 16 && PacketTypeStat == 17 && PacketTypeRename == 18 && PacketTypeReadLink == 19 && PacketTypeSymlink == 20
+//@   ensures PacketTypeStatus == 101 && PacketTypeHandle == 102 && PacketTypeData == 103 && PacketTypeName == 104 && PacketTypeAttrs == 105 && PacketTypeExtended == 200 && PacketTypeExtendedReply == 201
+//@   ensures StatusOK == 0 && StatusEOF == 1 && StatusNoSuchFile == 2 && StatusPermissionDenied == 3 && StatusFailure == 4 && StatusBadMessage == 5 && StatusNoConnection == 6 && StatusConnectionLost == 7 && StatusOPUnsupported == 8
+//@   ensures FlagRead == 1 && FlagWrite == 2 && FlagAppend == 4 && FlagCreate == 8 && FlagTruncate == 0x10 && FlagExclusive == 0x20
+//@   ensures AttrSize == 1 && AttrUIDGID == 2 && AttrPermissions == 4 && AttrACModTime == 8 && AttrExtended == 0x80000000
+// (the same numbers as the wire codec's table: draft-ietf-secsh-filexfer-02 sections 3, 5, 6.3, 7)
+
+//@ extend func (*Buffer).UnmarshalBinary
+//@   property C06
+//@   ensures result == nil && b.off == 0 && len(b.b) == len(data)
+// (decoding into a reused Buffer starts reading at the first byte again)
+
 //@ ghost var frameLen uint32
 //@ ghost var rdErr bool
 
@@ -461,6 +476,16 @@ def sshfx_decoder(st, fields):
 
 
 EXTRA_SFTP = r'''
+//@ lemma wireConstants
+//@   property C06
+//@   ensures sshFxpInit == 1 && sshFxpVersion == 2 && sshFxpOpen == 3 && sshFxpClose == 4 && sshFxpRead == 5 && sshFxpWrite == 6 && sshFxpLstat == 7 && sshFxpFstat == 8 && sshFxpSetstat == 9 && sshFxpFsetstat == 10
+//@   ensures sshFxpOpendir == 11 && sshFxpReaddir == 12 && sshFxpRemove == 13 && sshFxpMkdir == 14 && sshFxpRmdir == 15 && sshFxpRealpath == 16 && sshFxpStat == 17 && sshFxpRename == 18 && sshFxpReadlink == 19 && sshFxpSymlink == 20
+//@   ensures sshFxpStatus == 101 && sshFxpHandle == 102 && sshFxpData == 103 && sshFxpName == 104 && sshFxpAttrs == 105 && sshFxpExtended == 200 && sshFxpExtendedReply == 201
+//@   ensures sshFxOk == 0 && sshFxEOF == 1 && sshFxNoSuchFile == 2 && sshFxPermissionDenied == 3 && sshFxFailure == 4 && sshFxBadMessage == 5 && sshFxNoConnection == 6 && sshFxConnectionLost == 7 && sshFxOPUnsupported == 8
+//@   ensures sshFxfRead == 1 && sshFxfWrite == 2 && sshFxfAppend == 4 && sshFxfCreat == 8 && sshFxfTrunc == 0x10 && sshFxfExcl == 0x20
+//@   ensures sshFileXferAttrSize == 1 && sshFileXferAttrUIDGID == 2 && sshFileXferAttrPermissions == 4 && sshFileXferAttrACmodTime == 8 && sshFileXferAttrExtended == 0x80000000
+// (draft-ietf-secsh-filexfer-02 sections 3, 5, 6.3, 7: packet types, attribute flags, open flags, status codes)
+
 //@ func (*sshFxpStatResponse).marshalPacket
 //@   property C06
 //@   content
